@@ -14,8 +14,13 @@ def _fsm_variant():
 RAFT = {"dir": "consensus/raft", "pkgname": "raft"}
 FILES = ["raft/c01_rig_test.go", _fsm_variant(), "raft/c01_test.go", "raft/c01_r2_test.go", "raft/c17_test.go", "raft/c01_r3_test.go"]
 
+ROOT = {"dir": "", "pkgname": "ipfscluster"}
+ROOT_FILES = ["root/rig_test.go", "root/rig_c04_test.go", "root/c17_cluster_test.go", "root/c17_cluster_raft_test.go"]
+
 SPEC = {
     "go": [dict(RAFT, files=FILES, test="TestVerifC17", n_quick=60, n_thorough=1200, shards_quick=4, shards_thorough=12,
+                timeout_quick=600, timeout_thorough=3000),
+           dict(ROOT, files=ROOT_FILES, test="TestVerifC17Cluster", n_quick=300, n_thorough=6000, shards_quick=6, shards_thorough=12,
                 timeout_quick=600, timeout_thorough=3000)],
     "rule": "generated scripts on rig R1 (real hashicorp/raft nodes in memory, real FSM and *Consensus): 1..3 initial members of 6 "
             "peer identities; AddPeer/RmPeer through the real Consensus.AddPeer/RmPeer at leader and followers (of absent, present, "
